@@ -295,7 +295,7 @@ fn run(table: &'static [GrammarEntry], args: &Args, by_id: &HashMap<String, Mode
     }
     partial.grammars = ctxs.len() as u64;
     match args.prop.as_str() {
-        "C05" | "C06" | "C07" | "C13" | "C20" => crate::special::run(table, &ctxs, &cr, &mut partial),
+        "C05" | "C06" | "C07" | "C13" | "C16" | "C20" => crate::special::run(table, &ctxs, &cr, &mut partial),
         _ => {
             for (ti, g) in &ctxs {
                 for e in table[*ti].rules {
